@@ -411,6 +411,19 @@ func (w *writer) field(depth int, kw string, f *Field) {
 		}
 		body = append(body, p)
 	}
+	if leaf.Kind == "key" {
+		// README: "the key type has ... foreign (string)"; primary and tenant only
+		// have their alias inside entity blocks, so they are written by full path
+		if leaf.KeyForeign != "" {
+			body = append(body, itemPrefix+"foreign = "+q(leaf.KeyForeign))
+		}
+		if leaf.KeyPrimary {
+			body = append(body, itemPrefix+"entity.primaryKey = true")
+		}
+		if leaf.KeyTenant != "" {
+			body = append(body, itemPrefix+"entity.tenantKey = "+q(leaf.KeyTenant))
+		}
+	}
 	if leaf.Kind == "any" {
 		if leaf.AnyOnlyDefined {
 			body = append(body, itemPrefix+"onlyDefined = true")
